@@ -11,7 +11,8 @@
    Real-time pacing is not modelled (what is delivered, not when). *)
 From Coq Require Import List ZArith Bool.
 From GoHls Require Import Model.ClientTime Proofs.ClientTimeArith Proofs.ClientTimeDecode
-  Proofs.ClientTimeFMP4 Proofs.ClientTimeMPEGTS Proofs.ClientTimeMain Proofs.ClientTimeExamples.
+  Proofs.ClientTimeFMP4 Proofs.ClientTimeMPEGTS Proofs.ClientTimeMain Proofs.ClientTimeExamples
+  Proofs.ClientTimePMT.
 Import ListNotations.
 Local Open Scope Z_scope.
 
@@ -286,6 +287,145 @@ Theorem c10_mpegts_converter_state : forall isL st s0 s' out t0g lastg,
   /\ (mst_segments st <> [] -> started t0 (last_time tracks last0 p) s').
 Proof. exact runStream_keys. Qed.
 Print Assumptions c10_mpegts_converter_state.
+
+(* ------------------------------------------------------------------ MPEG-TS: the PMT *)
+
+(* "the client reports exactly the stream's supported tracks": the PMT ([pmt_tracks], what
+   mediacommon's Reader.Tracks() returns) may list elementary streams the client does not
+   support ([POther]: H265, MPEG-1/2/4 video, MPEG-1 audio, AC-3, Opus, unknown) anywhere.
+   [supportedTracks] are the reported tracks, [supportedIndex l k] the client track of PMT
+   entry k. A PMT entry is a client track iff it is H264 or MPEG-4 audio; its position among
+   the client tracks is the number of supported entries before it. *)
+Theorem c10_pmt_track_position : forall l k i,
+  supportedIndex l k = Some i <->
+  exists c m, nth_error l k = Some c /\ codec_of c = Some m /\
+              i = length (supportedTracks (firstn k l)).
+Proof. exact supportedIndex_spec. Qed.
+Print Assumptions c10_pmt_track_position.
+
+(* that client track has the entry's codec *)
+Theorem c10_pmt_track_codec : forall l k i,
+  supportedIndex l k = Some i ->
+  exists c m, nth_error l k = Some c /\ codec_of c = Some m /\ nth_error (supportedTracks l) i = Some m.
+Proof. exact supportedIndex_nth. Qed.
+Print Assumptions c10_pmt_track_codec.
+
+(* every reported track is a PMT entry (nothing invented), PMT order is kept (hence no entry
+   is reported twice) *)
+Theorem c10_pmt_tracks_complete : forall l i m,
+  nth_error (supportedTracks l) i = Some m -> exists k, supportedIndex l k = Some i.
+Proof. exact supportedIndex_surj. Qed.
+Print Assumptions c10_pmt_tracks_complete.
+
+Theorem c10_pmt_order : forall l k1 k2 i1 i2,
+  supportedIndex l k1 = Some i1 -> supportedIndex l k2 = Some i2 -> (k1 < k2)%nat -> (i1 < i2)%nat.
+Proof. exact supportedIndex_mono. Qed.
+Print Assumptions c10_pmt_order.
+
+(* exactly the unsupported entries (and PIDs outside the PMT) have no callback *)
+Theorem c10_pmt_unsupported_dropped : forall l k,
+  supportedIndex l k = None <-> nth_error l k = None \/ nth_error l k = Some POther.
+Proof. exact supportedIndex_None. Qed.
+Print Assumptions c10_pmt_unsupported_dropped.
+
+(* the leading track is the client track of the FIRST H264 ENTRY OF THE PMT, whatever
+   precedes it, and client track 0 (the first supported entry) when there is none *)
+Theorem c10_pmt_leading : forall l,
+  match firstPH264 l with
+  | Some k => supportedIndex l k = Some (mpegtsPickLeadingTrack (supportedTracks l))
+  | None => mpegtsPickLeadingTrack (supportedTracks l) = O
+  end.
+Proof. exact pmt_leading. Qed.
+Print Assumptions c10_pmt_leading.
+
+(* ... an index into the filtered list: the H264 entry's position in the PMT designates
+   another track, or none, as soon as an unsupported entry precedes it *)
+Theorem c10_pmt_position_is_not_index :
+  exists l k, firstPH264 l = Some k /\
+    mpegtsPickLeadingTrack (supportedTracks l) <> k /\
+    nth_error (supportedTracks l) k = Some MAudio.
+Proof. exact pmt_position_is_not_index. Qed.
+Print Assumptions c10_pmt_position_is_not_index.
+
+Theorem c10_pmt_position_is_not_index_none :
+  exists l k, firstPH264 l = Some k /\ nth_error (supportedTracks l) k = None.
+Proof. exact pmt_position_is_not_index_none. Qed.
+Print Assumptions c10_pmt_position_is_not_index_none.
+
+(* c10_all_delivered_mpegts / c10_mpegts_time for a PMT-level stream: the stream processor
+   works on [readerView st] (supported tracks; the PES of their PIDs, in order) *)
+Theorem c10_pmt_view : forall st,
+  mst_tracks (readerView st) = supportedTracks (pmt_tracks st) /\
+  all_pes (mst_segments (readerView st))
+  = flat_map (readerDispatch (pmt_tracks st)) (all_pes (pmt_segments st)).
+Proof. exact (fun st => conj eq_refl (readerView_all_pes st)). Qed.
+Print Assumptions c10_pmt_view.
+
+Theorem c10_all_delivered_pmt : forall isL st s0 s' out t0g lastg j,
+  (isL = true \/ exists td, m_td s0 = Some td /\ td_inv t0g lastg td) ->
+  runStreamPMT isL s0 (wrap_pmt st) = Ok (s', out) ->
+  let v := readerView st in
+  let tracks := mst_tracks v in
+  let p := processed v in
+  let t0 := if isL then origin_of tracks p else t0g in
+  let last0 := if isL then origin_of tracks p else lastg in
+  pes_gaps tracks last0 p ->
+  map dkey (proj j out) = filter keepk (map (mnorm tracks t0) (track_units tracks j p)).
+Proof. exact pmt_stream_delivers. Qed.
+Print Assumptions c10_all_delivered_pmt.
+
+(* every callback on client track j carries a PES that arrived on the PID of the supported
+   PMT entry which is client track j, with time = true time - origin *)
+Theorem c10_pmt_time : forall isL st s0 s' out t0g lastg j d,
+  (isL = true \/ exists td, m_td s0 = Some td /\ td_inv t0g lastg td) ->
+  runStreamPMT isL s0 (wrap_pmt st) = Ok (s', out) ->
+  let v := readerView st in
+  let tracks := mst_tracks v in
+  let p := processed v in
+  let t0 := if isL then origin_of tracks p else t0g in
+  let last0 := if isL then origin_of tracks p else lastg in
+  pes_gaps tracks last0 p ->
+  In d (proj j out) ->
+  exists e c, In e (all_pes (pmt_segments st)) /\
+    supportedIndex (pmt_tracks st) (pe_track e) = Some j /\
+    nth_error (pmt_tracks st) (pe_track e) = Some c /\ c <> POther /\
+    dl_pts d = pe_rawPTS e - t0 /\
+    dl_dts d = (match c with PH264 => pe_rawDTS e | _ => pe_rawPTS e end) - t0 /\
+    dl_data d = pe_payload e /\ 0 <= dl_pts d.
+Proof. exact pmt_time. Qed.
+Print Assumptions c10_pmt_time.
+
+(* PMT [MPEG-1 audio; H264; MPEG-4 audio; AC-3]: tracks H264, MPEG-4 audio; origin = first
+   H264 dts; the MPEG-1 audio and AC-3 PES never reach a callback *)
+Example c10_pmt_ex :
+  runStreamPMT true mstate_zero (wrap_pmt ex_pmt) = Ok (ex_pmt_state, ex_pmt_out) /\
+  reportedTracksPMT ex_pmt [] = [MH264; MAudio] /\
+  firstPH264 (pmt_tracks ex_pmt) = Some 1%nat /\
+  mpegtsPickLeadingTrack (supportedTracks (pmt_tracks ex_pmt)) = 0%nat /\
+  pes_gaps (mst_tracks (readerView ex_pmt))
+           (origin_of (mst_tracks (readerView ex_pmt)) (processed (readerView ex_pmt)))
+           (processed (readerView ex_pmt)) /\
+  map dkey (proj 0 ex_pmt_out) = [(6000, 0, 2); (3000, 3000, 5)] /\
+  map dkey (proj 1 ex_pmt_out) = [(1500, 1500, 4)].
+Proof. exact (conj ex_pmt_run ex_pmt_facts). Qed.
+
+(* no callback is ever made on a position beyond the reported tracks (leading playlist's
+   supported tracks, then each rendition's) *)
+Theorem c10_pmt_reported_only : forall leading rends out,
+  runClientPMT leading rends = Ok out ->
+  Forall (fun x => (fst x < length (reportedTracksPMT leading rends))%nat) out.
+Proof. exact runClientPMT_pos. Qed.
+Print Assumptions c10_pmt_reported_only.
+
+(* a playlist without any supported elementary stream is refused ("no supported tracks
+   found"), one with more than ten supported ones too; unsupported entries do not count *)
+Theorem c10_pmt_refused : forall isL s st,
+  pmt_segments st <> [] ->
+  (supportedTracks (pmt_tracks st) = [] -> runStreamPMT isL s st = Err ErrNoSupportedTracks) /\
+  ((clientMaxTracksPerStream < length (supportedTracks (pmt_tracks st)))%nat ->
+   runStreamPMT isL s st = Err ErrTooManyTracks).
+Proof. exact runStreamPMT_refused. Qed.
+Print Assumptions c10_pmt_refused.
 
 (* ------------------------------------------------------------------ AbsoluteTime *)
 
